@@ -12,7 +12,8 @@ from vf.core import sig_of  # noqa: E402
 
 ID = "C07"
 LEVEL = "exploration"
-RULE = ("scenario A (2/3 of the cases): a component repository (linear release branch with increasing build "
+RULE = ('[later additions: repositories tracking a remote other than origin handed over as ProjectRepo objects; a tag hook reporting the version name; parent histories that merge two built sides one of which still pins the oldest component build] '
+        "scenario A (2/3 of the cases): a component repository (linear release branch with increasing build "
         "tags, optionally a forked second branch; in 30% the main line is origin/master with build_<n>_master_success tags whose "
         "major.minor come from a VERSION file that changes along the branch; commits minutes, hours or days apart, "
         "parent commits younger than the component commits they pin) and a parent repository (random DAG, 1-3 branches, build "
